@@ -50,8 +50,10 @@ fn json_of<B: Sym>(v: &[B]) -> Value {
     Value::Array(v.iter().map(|x| json!(x.to_u64())).collect())
 }
 
-/// read one item through every accessor: into_owned, the decoding iterator, Debug
-fn read_item<B: Sym>(c: &HuffmanContainer<B>, idx: (usize, usize)) -> Value {
+/// read one item through every accessor: into_owned, the decoding iterator, Debug, clone_onto.
+/// Returns the rendering (or an error marker) plus whether clone_onto(longer / shorter / empty target)
+/// left the target equal to the item (C14).
+fn read_item_full<B: Sym>(c: &HuffmanContainer<B>, idx: (usize, usize)) -> (Value, bool) {
     let r = guarded(|| {
         let owned: Vec<B> = c.index(idx).into_owned();
         let w = c.index(idx);
@@ -61,23 +63,28 @@ fn read_item<B: Sym>(c: &HuffmanContainer<B>, idx: (usize, usize)) -> Value {
         };
         let dbg = format!("{:?}", c.index(idx));
         let want_dbg = format!("{:?}", owned);
-        let mut target: Vec<B> = vec![B::from_u64(1), B::from_u64(1), B::from_u64(1)];
-        c.index(idx).clone_onto(&mut target);
+        let mut onto_ok = true;
+        for target_len in [0usize, 1, owned.len() + 3, 9] {
+            let mut target: Vec<B> = (0..target_len).map(|k| B::from_u64(200 + k as u64)).collect();
+            c.index(idx).clone_onto(&mut target);
+            onto_ok &= target == owned;
+        }
         if owned != via_decode {
-            return json!({"INCONSISTENT": "into_owned vs decode", "a": json_of(&owned), "b": json_of(&via_decode)});
+            return (json!({"INCONSISTENT": "into_owned vs decode", "a": json_of(&owned), "b": json_of(&via_decode)}), onto_ok);
         }
         if dbg != want_dbg {
-            return json!({"INCONSISTENT": "Debug", "a": dbg, "b": want_dbg});
+            return (json!({"INCONSISTENT": "Debug", "a": dbg, "b": want_dbg}), onto_ok);
         }
-        if target != owned {
-            return json!({"INCONSISTENT": "clone_onto", "a": json_of(&owned), "b": json_of(&target)});
-        }
-        json_of(&owned)
+        (json_of(&owned), onto_ok)
     });
     match r {
         Ok(v) => v,
-        Err(m) => json!({"PANIC": m}),
+        Err(m) => (json!({"PANIC": m}), true),
     }
+}
+
+fn read_item<B: Sym>(c: &HuffmanContainer<B>, idx: (usize, usize)) -> Value {
+    read_item_full(c, idx).0
 }
 
 fn push_form<B: Sym>(c: &mut HuffmanContainer<B>, form: &str, v: &[B]) -> (usize, usize) {
@@ -165,7 +172,7 @@ pub fn run_scenario<B: Sym, W: Write>(run: u64, ops: &[Value], nslots: usize, pr
                     Ok(idx) => {
                         let sl = &mut slots[s];
                         sl.ids.push(idx);
-                        let read = read_item(&sl.c, idx);
+                        let (read, onto_ok) = read_item_full(&sl.c, idx);
                         // re-read every earlier item: must still render as when first read
                         let mut stable = true;
                         let mut changed = json!("");
@@ -181,7 +188,7 @@ pub fn run_scenario<B: Sym, W: Write>(run: u64, ops: &[Value], nslots: usize, pr
                         // a read that is not a plain symbol sequence (panic / accessors disagree) travels as text
                         let (read_val, read_err) = if read.is_array() { (read.clone(), String::new()) } else { (json!([]), read.to_string()) };
                         writeln!(out, "{}", json!({"ev": "push", "run": run, "seq": seq, "s": s + 1, "v": json_of(&v), "form": if src.is_some() { "wrapped".to_string() } else { form }, "panic": false,
-                            "idx": [idx.0, idx.1], "read": read_val, "read_err": read_err, "stable": stable, "changed": changed})).unwrap();
+                            "idx": [idx.0, idx.1], "read": read_val, "read_err": read_err, "onto_ok": onto_ok, "stable": stable, "changed": changed})).unwrap();
                     }
                 }
             }
@@ -358,30 +365,45 @@ pub fn cmd_gen_cmp(seed: u64, count: usize, out: &str, ty: &str) {
         for &k in &order {
             ops.push(json!({"op": "push", "s": 3, "v": items[k]}));
         }
+        // a second coded container with a DIFFERENT code table (statistics skewed the other way)
+        let mut skew: Vec<u64> = vec![];
+        for (k, s) in syms.iter().rev().enumerate() {
+            for _ in 0..(1 + 3 * k) {
+                skew.push(*s);
+            }
+        }
+        ops.push(json!({"op": "push", "s": 4, "v": skew}));
+        ops.push(json!({"op": "merge", "d": 4, "srcs": [4]}));
+        for &k in &order {
+            ops.push(json!({"op": "push", "s": 4, "v": items[k]}));
+        }
         let n = items.len();
+        let pos_in_order = |k: usize| order.iter().position(|x| *x == k).unwrap();
         for i in 0..n {
             for j in 0..n {
-                // raw vs coded, coded vs raw, coded vs coded, raw vs raw
+                // raw vs coded, coded vs raw, coded vs coded (same and different code tables), raw vs raw
                 ops.push(json!({"op": "cmp", "s": 1, "i": i, "s2": 3, "i2": j}));
                 ops.push(json!({"op": "cmp", "s": 3, "i": i, "s2": 1, "i2": j}));
+                ops.push(json!({"op": "cmp", "s": 3, "i": pos_in_order(i), "s2": 4, "i2": pos_in_order(j)}));
                 if (i + j) % 2 == 0 {
                     ops.push(json!({"op": "cmp", "s": 3, "i": i, "s2": 3, "i2": j}));
                     ops.push(json!({"op": "cmp", "s": 1, "i": i, "s2": 1, "i2": j}));
+                    ops.push(json!({"op": "cmp", "s": 4, "i": i, "s2": 3, "i2": j}));
                 }
             }
         }
-        writeln!(f, "{}", json!({"nslots": 3, "ops": ops})).unwrap();
+        writeln!(f, "{}", json!({"nslots": 4, "ops": ops})).unwrap();
     }
 }
 
-pub fn cmd_gen(seed: u64, count: usize, out: &str, ty: &str) {
+pub fn cmd_gen(seed: u64, count: usize, out: &str, ty: &str, small: bool) {
     let mut rng = StdRng::seed_from_u64(seed);
     let mut f = std::io::BufWriter::new(std::fs::File::create(out).expect("create"));
     let maxsym: u64 = if ty == "u8" { 200 } else { 60000 };
     for k in 0..count {
         let mut ops: Vec<Value> = vec![];
-        // profile kinds
-        let kind = k % 8;
+        // profile kinds; `small` leaves out the alphabets of hundreds of symbols (slow to validate)
+        let kind = if small && k % 8 == 3 { 7 } else { k % 8 };
         let (nsym, profile): (usize, Vec<u64>) = match kind {
             0 => (1, vec![rng.gen_range(1..6)]),
             1 => {
@@ -444,6 +466,9 @@ pub fn cmd_gen(seed: u64, count: usize, out: &str, ty: &str) {
             ops.push(json!({"op": "push", "s": 1, "v": []}));
         }
         ops.push(json!({"op": "merge", "d": 3, "srcs": [1, 2]}));
+        // a first, known item in the coded container
+        let v0: Vec<u64> = if syms.is_empty() { vec![] } else { (0..rng.gen_range(1..6)).map(|_| syms[rng.gen_range(0..syms.len())]).collect() };
+        ops.push(json!({"op": "push", "s": 3, "v": v0}));
         // coded pushes: items of assorted lengths so that every start/end phase and 0,1,2+ whole bytes occur
         let npush = rng.gen_range(3..14);
         for _ in 0..npush {
@@ -475,8 +500,28 @@ pub fn cmd_gen(seed: u64, count: usize, out: &str, ty: &str) {
             ops.push(json!({"op": "cmp", "s": 2, "i": 0, "s2": 3, "i2": 0}));
             ops.push(json!({"op": "cmp", "s": 3, "i": 1, "s2": 1, "i2": 0}));
             ops.push(json!({"op": "cmp", "s": 1, "i": 0, "s2": 2, "i2": 1}));
+            // statistics of a coded container include items pushed as read items of another coded container:
+            // the next generation is built from them
+            ops.push(json!({"op": "merge", "d": 1, "srcs": [2]}));
+            for _ in 0..rng.gen_range(1..4) {
+                let len = rng.gen_range(0..9);
+                let v: Vec<u64> = if syms.is_empty() { vec![] } else { (0..len).map(|_| syms[rng.gen_range(0..syms.len())]).collect() };
+                ops.push(json!({"op": "push", "s": 1, "v": v}));
+            }
+            // a coded container whose ONLY input is a read item of another coded container: the generation
+            // built from it must know exactly that item's symbols
+            ops.push(json!({"op": "merge", "d": 1, "srcs": [3]}));
+            ops.push(json!({"op": "push_from", "d": 1, "s": 3, "i": 0}));
+            ops.push(json!({"op": "merge", "d": 2, "srcs": [1]}));
+            ops.push(json!({"op": "push", "s": 2, "v": v0}));
+            ops.push(json!({"op": "push_from", "d": 2, "s": 1, "i": 0}));
+            // clear must also forget the statistics: a new profile, a new generation
             ops.push(json!({"op": "clear", "s": 2}));
             ops.push(json!({"op": "push", "s": 2, "v": [maxsym + 1, 3, 3]}));
+            ops.push(json!({"op": "push", "s": 2, "v": [3, 3, maxsym + 2, 3]}));
+            ops.push(json!({"op": "merge", "d": 3, "srcs": [2]}));
+            ops.push(json!({"op": "push", "s": 3, "v": [3, maxsym + 1, 3]}));
+            ops.push(json!({"op": "push", "s": 3, "v": [maxsym + 2]}));
         }
         writeln!(f, "{}", json!({"nslots": 3, "ops": ops})).unwrap();
     }
